@@ -47,6 +47,17 @@ def gen_content(rng, max_images=8, unique=True):
             continue
         seen.add(key)
         K["imgs"].append(img)
+    # the same content under a second name (hard link / copy): equal identity AND equal checksums, other path/mtime/size
+    for i in range(len(K["imgs"])):
+        if rng.random() < 0.15:
+            twin = dict(K["imgs"][i])
+            twin["checksums"] = dict(twin["checksums"])
+            twin["additional_variants"] = list(twin["additional_variants"])
+            twin["path"] = twin["path"] + ".twin%d" % len(K["imgs"])
+            twin["mtime"] = twin["mtime"] + 1
+            if rng.random() < 0.5:
+                twin["volume_id"] = "twin"
+            K["imgs"].append(twin)
     variants = subset(rng, VARIANTS, 1, 3)
     cell_arches = pools.ARCHES if rng.random() < 0.8 else pools.ARCHES + ["noarch", "ia64", "riscv64", "loongarch64", "armv7hl", "amd64", "arm64"]
     for i, img in enumerate(K["imgs"]):
@@ -96,6 +107,17 @@ def build_ops(K, rng, slot=0, version="1.2", permute=True, iid_base=0):
 
 def valid_mutation(K, rng, slot=0):
     sl = {"slot": slot} if slot else {}
+    r0 = rng.random()
+    if K["cells"] and r0 < 0.12:
+        v, a, i = pick(rng, K["cells"])
+        o = {"op": "img_remove", "variant": v, "arch": a, "iid": i}
+        o.update(sl)
+        return o
+    if K["imgs"] and r0 < 0.22:
+        i = rng.randrange(len(K["imgs"]))
+        o = {"op": "img_inplace", "iid": i, "how": "checksums.set", "key": pick(rng, ["md5", "sha1", "sha256", "crc"]), "value": hexstr(rng, 8)}
+        o.update(sl)
+        return o
     if K["imgs"] and rng.random() < 0.6:
         i = rng.randrange(len(K["imgs"]))
         f, v = pick(rng, [("mtime", rng.randint(5, 10 ** 9)), ("size", rng.randint(5, 10 ** 12)), ("volume_id", "changed"),
@@ -146,6 +168,8 @@ def poison_sites(K, used_only=True):
                 sites.append({"kind": "img", "iid": i, "field": f, "bad": b, "good": img[f]})
         if not img["unified"]:
             sites.append({"kind": "img", "iid": i, "field": "additional_variants", "bad": ["Server"], "good": img["additional_variants"]})
+            sites.append({"kind": "img-inplace", "iid": i, "how": "additional_variants.append", "value": "Server", "field": "additional_variants", "good": img["additional_variants"]})
+        sites.append({"kind": "img-inplace", "iid": i, "how": "checksums.clear", "field": "checksums", "good": img["checksums"]})
     return sites
 
 
@@ -154,6 +178,10 @@ def poison_ops(site, slot=0, iid_base=0):
     if site["kind"] == "compose":
         p = {"op": "im_set", "field": site["field"], "value": site["bad"]}
         h = {"op": "im_set", "field": site["field"], "value": site["good"]}
+    elif site["kind"] == "img-inplace":
+        # corrupt WITHOUT an attribute assignment (the object mutates one of its mutable fields in place)
+        p = {"op": "img_inplace", "iid": iid_base + site["iid"], "how": site["how"], "value": site.get("value")}
+        h = {"op": "img_set", "iid": iid_base + site["iid"], "field": site["field"], "value": site["good"]}
     else:
         p = {"op": "img_set", "iid": iid_base + site["iid"], "field": site["field"], "value": site["bad"]}
         h = {"op": "img_set", "iid": iid_base + site["iid"], "field": site["field"], "value": site["good"]}
